@@ -78,6 +78,11 @@ def builders():
         chop_ops,
         {},
     )
+    B["RevolvedShape"] = (
+        lambda fr, s: cb.RevolvedShape(cb.Grid([0, 1 * s, 0], [2 * s, 2 * s, 0], 2, 2).rotate(*_axis_angle(fr)).translate(FRAMES[fr][1]), 0.8, V(fr, [1, 0, 0]), P(fr, [0, 0, 0], s)),
+        chop_ops,
+        {"revolve_axis": ([0, 0, 0], [1, 0, 0])},
+    )
     B["Wedge"] = (lambda fr, s: cb.Wedge(cb.Face([np.array(p) * s for p in ([0, 0.5, 0], [1, 0.5, 0], [1, 1.2, 0], [0, 1.0, 0])])), None, {"frames": [0]})
 
     def connector(fr, s):
@@ -177,6 +182,16 @@ def builders():
     return B
 
 
+def _axis_angle(fr):
+    """(angle, axis, origin) arguments of .rotate() that realise the frame's rotation"""
+    R = FRAMES[fr][0]
+    ang = math.acos(max(-1.0, min(1.0, (np.trace(R) - 1) / 2)))
+    if ang < 1e-12:
+        return 0.0, [0, 0, 1], [0, 0, 0]
+    ax = np.array([R[2, 1] - R[1, 2], R[0, 2] - R[2, 0], R[1, 0] - R[0, 1]])
+    return ang, list(ax / np.linalg.norm(ax)), [0, 0, 0]
+
+
 class _Group:
     """several operations treated as one additive entity (harness helper)"""
 
@@ -201,6 +216,12 @@ def cases(tier, seed):
         for fr in frames:
             for s in sizes:
                 out.append({"what": "shape", "name": name, "frame": fr, "size": s})
+    # placement by transformation: the entity is built in the canonical frame and then rotated + translated into
+    # the frame by its own methods (this also places the stacks and the wedge, whose constructors take no frame)
+    for name, (mk, chop, opt) in B.items():
+        for fr in ([4, 1 + (seed + 2) % 7] if tier == "quick" else list(range(1, nfr))):
+            if fr != 0:
+                out.append({"what": "shape", "name": name, "frame": fr, "size": 1.0, "via": "transform"})
     depth = 2 if tier == "quick" else 3
     frames = [4] if tier == "quick" else [0, 4, 6]
     for fr in frames:
@@ -291,6 +312,20 @@ def run_shape(case):
     def bad(clause, detail):
         violations.append({"clause": clause, "coords": coords, "detail": detail})
 
+    if case.get("via") == "transform":
+        mk0 = mk
+
+        def mk(fr, s):  # noqa: F811
+            e = mk0(0, s)
+            R, t = FRAMES[fr]
+            ang = math.acos(max(-1.0, min(1.0, (np.trace(R) - 1) / 2)))
+            ax = np.array([R[2, 1] - R[1, 2], R[0, 2] - R[2, 0], R[1, 0] - R[0, 1]])
+            for part in e.operations if isinstance(e, _Group) else [e]:
+                if ang > 1e-12:
+                    part.rotate(ang, ax / np.linalg.norm(ax), [0, 0, 0])
+                part.translate(t)
+            return e
+
     try:
         e = mk(fr, s)
         mesh = assemble([e])
@@ -315,6 +350,20 @@ def run_shape(case):
                     r = np.linalg.norm(np.cross(p - o, ax))
                     if abs(r - R) > 1e-6 * s:
                         bad("outer-arc-off-circle", f"arc point at radius {r}, expected {R}")
+                        break
+    if "revolve_axis" in opt:
+        o, ax = opt["revolve_axis"]
+        o, ax = P(fr, o, s), V(fr, ax)
+        ax = ax / np.linalg.norm(ax)
+        for ed in mesh.edge_list.edges:
+            if ed.kind in ("arc", "origin", "angle"):
+                ends = [np.asarray(ed.vertex_1.position), np.asarray(ed.vertex_2.position)]
+                r_ends = [np.linalg.norm(np.cross(q - o, ax)) for q in ends]
+                h_ends = [float((q - o) @ ax) for q in ends]
+                if abs(r_ends[0] - r_ends[1]) < 1e-6 * s and abs(h_ends[0] - h_ends[1]) < 1e-6 * s:
+                    q = np.asarray(ed.third_point.position)
+                    if abs(np.linalg.norm(np.cross(q - o, ax)) - r_ends[0]) > 1e-6 * s or abs(float((q - o) @ ax) - h_ends[0]) > 1e-6 * s:
+                        bad("outer-arc-off-circle", f"arc of revolution between {ends[0].round(5).tolist()} and {ends[1].round(5).tolist()} passes through {q.round(5).tolist()}: radius {np.linalg.norm(np.cross(q - o, ax))} instead of {r_ends[0]}")
                         break
     # documented chops are sufficient
     if chop is not None:
